@@ -479,6 +479,16 @@ func (r *Reader) parseSlideRelationships(slidePath string, index int) {
 		return
 	}
 
+	// Relationship targets are relative to the slide part (or absolute): resolve them
+	// here, where the slide's own path is known
+	for i, rel := range rels.Relationship {
+		if strings.HasPrefix(rel.Target, "/") {
+			rels.Relationship[i].Target = strings.TrimPrefix(rel.Target, "/")
+		} else {
+			rels.Relationship[i].Target = path.Join(dir, rel.Target)
+		}
+	}
+
 	r.slideRels[index] = rels
 }
 
